@@ -27,6 +27,7 @@ def run(ctx):
     sd_backend(ctx, ctx.n(80, 1500))
     nested_runs(ctx, ctx.n(20, 300))
     past_till(ctx, ctx.n(30, 500))
+    oracle_correspondence(ctx, ctx.n(300, 3000))
     reused_conditions(ctx, ctx.n(20, 300))
     # timed waits through the SimPy layer (Timeout, processes registered before the run, initial_time): C18's directed
     # family, its oracle is the clock arithmetic of this property
@@ -183,6 +184,44 @@ def float_at_starts(rng, n):
         out.append(('float-at-starts', dict(start=start, till=None, float_times=True, roots=[[['scope', 1, body]], watcher],
                                             nflags=1, tracked=[0], nlocks=1, nqueues=1, nchans=1, res=[])))
     return out
+
+
+def oracle_correspondence(ctx, n):
+    """the oracle for date formulas evaluates them with monitors._holds; the theorems of TimeFormula.v are about tholds:
+    the two are the same function (checked here on random formulas and times, evaluated inside Coq)"""
+    from harness import monitors
+    from harness.check import parse_nat_list
+    rng = ctx.rng
+
+    def tree(depth):
+        if depth >= 4 or rng.random() < 0.3:
+            return rng.choice([['after', rng.randint(-3, 12)], ['before', rng.randint(-3, 12)], ['moment', rng.randint(-3, 12)],
+                               ['instant'], ['eternity']])
+        return [rng.choice(['and', 'or']), tree(depth + 1), tree(depth + 1)]
+
+    def coq(w):
+        k = w[0]
+        if k in ('and', 'or'):
+            return '(%s %s %s)' % ('TAnd' if k == 'and' else 'TOr', coq(w[1]), coq(w[2]))
+        return {'after': '(TAfter (%d))', 'before': '(TBefore (%d))', 'moment': '(TMoment (%d))'}[k] % w[1] \
+            if k in ('after', 'before', 'moment') else ('TInstant' if k == 'instant' else 'TEternity')
+    cases = [(tree(0), rng.randint(-4, 13)) for _ in range(n)]
+    text = ['From Coq Require Import ZArith List Bool.', 'From Usim Require Import TimeFormula.', 'Import ListNotations.',
+            'Open Scope Z_scope.',
+            'Definition cases : list (tform * Z * bool) := [%s].' % ';\n  '.join(
+                '(%s, (%d), %s)' % (coq(w), t, 'true' if monitors._holds(w, t) else 'false') for w, t in cases),
+            'Fixpoint bad (i : nat) (l : list (tform * Z * bool)) : list nat :=',
+            '  match l with [] => [] | (w, t, b) :: r => (if Bool.eqb (tholds w t) b then [] else [i]) ++ bad (S i) r end.',
+            'Eval vm_compute in (bad 0 cases).']
+    path = ctx.write_case_file('oracle_formulas', '\n'.join(text) + '\n')
+    rc, out = ctx.run_case_files([path])[path]
+    bad = parse_nat_list(out) if rc == 0 else None
+    ctx.bump('family:oracle-correspondence', n)
+    if bad is None:
+        ctx.mismatch('oracle-formulas', None, None, None, 'case file did not evaluate: %s' % out[-300:])
+    else:
+        for i in bad:
+            ctx.mismatch('oracle-formulas', {'formula': cases[i][0], 'time': cases[i][1]}, monitors._holds(*cases[i]), 'differs', '')
 
 
 def past_till(ctx, n):
